@@ -4,6 +4,7 @@ import (
 	"fmt"
 	"os"
 	"runtime"
+	"sort"
 	"sync"
 	"sync/atomic"
 
@@ -128,8 +129,13 @@ func DumpEntry(e iface.IPFSLogEntry) string {
 	if c := e.GetClock(); c != nil {
 		ck = fmt.Sprintf("%x@%d", c.GetID(), c.GetTime())
 	}
-	return fmt.Sprintf("h=%s id=%q p=%x next=%v refs=%v v=%d key=%x sig=%x ident=%s clock=%s",
-		e.GetHash(), e.GetLogID(), e.GetPayload(), e.GetNext(), e.GetRefs(), e.GetV(), e.GetKey(), e.GetSig(), id, ck)
+	var ad []string
+	for k, v := range e.GetAdditionalData() {
+		ad = append(ad, k+"="+v)
+	}
+	sort.Strings(ad)
+	return fmt.Sprintf("h=%s id=%q p=%x next=%v refs=%v v=%d key=%x sig=%x ident=%s clock=%s additional=%v",
+		e.GetHash(), e.GetLogID(), e.GetPayload(), e.GetNext(), e.GetRefs(), e.GetV(), e.GetKey(), e.GetSig(), id, ck, ad)
 }
 
 func (s *Search) workers() int {
